@@ -190,6 +190,56 @@ def cli_runs(tier, tally, docs, seeds, accepted_names):
                                      "differing": [x[0] for x in diff][:6]})
 
 
+WARN_DOCS = [
+    ("First.qml", "import qmluic.QtWidgets 6.2\nQWidget { windowTitle: \"first\" }\n"),
+    ("Second.qml", "import qmluic.QtWidgets\nQDialog { windowTitle: \"second\" }\n"),
+    ("Third.qml", "import qmluic.QtWidgets 5.15\nQWidget { QLabel { text: \"third\" } }\n"),
+]
+
+
+def _sections(stderr):
+    """stderr of the command split per 'processing <file>' section."""
+    out = {}
+    cur = None
+    for line in stderr.splitlines():
+        if line.startswith("processing "):
+            cur = line[len("processing "):].strip()
+            out[cur] = []
+        elif cur is not None:
+            out[cur].append(line)
+    return {k: "\n".join(v).strip() for k, v in out.items()}
+
+
+def cli_diagnostics_history(tally):
+    """The diagnostics printed for a source must not depend on how many documents were translated
+    before it in the same process: every ordered selection of the three warning documents is run
+    and each 'processing X' section is compared with the section of X translated alone."""
+    with vc.scratch_dir("c08w") as d:
+        for fn, text in WARN_DOCS:
+            with open(os.path.join(d, fn), "w") as f:
+                f.write(text)
+        names = [fn for fn, _t in WARN_DOCS]
+
+        def run(args):
+            p = subprocess.run([vc.QMLUIC_BIN, "generate-ui", "--foreign-types", vc.METATYPES] + list(args),
+                               cwd=d, env=dict(os.environ, NO_COLOR="1"), stdout=subprocess.PIPE,
+                               stderr=subprocess.PIPE)
+            tally.inc("cli_runs")
+            return p.returncode, _sections(p.stderr.decode("utf-8", "replace"))
+        alone = {fn: run([fn]) for fn in names}
+        for k in (2, 3):
+            for arr in itertools.permutations(names, k):
+                rc, secs = run(arr)
+                tally.inc("cli_history_runs")
+                for fn in arr:
+                    if secs.get(fn) != alone[fn][1].get(fn):
+                        tally.violation("cli:diagnostics-depend-on-earlier-documents",
+                                        {"kind": "cli-history", "order": list(arr), "source": fn,
+                                         "alone": alone[fn][1].get(fn), "in_sequence": secs.get(fn)})
+                if rc != 0:
+                    tally.violation("cli:warning-documents-rejected", {"kind": "cli-history", "order": list(arr)})
+
+
 def main(tier, t0):
     vc.ensure_vdrive()
     vc.ensure_cli()
@@ -243,6 +293,7 @@ def main(tier, t0):
                       if dg["generate"][0] == "built" and not dg["syntax"]
                       and not any(k == "error" for (k, _a, _b, _m) in dg["generate"][3])}
     cli_runs(tier, tally, docs, seeds[: (4 if tier == "quick" else 16)], accepted_names)
+    cli_diagnostics_history(tally)
     perm = {}
     for n in (2, 3, 4, 6):
         got = len(orders[f"probe/{n}"])
@@ -259,6 +310,7 @@ def main(tier, t0):
         "seeds": S, "repetitions_per_seed": R, "documents": len(docs),
         "orders_observed": perm,
         "cli_runs": tally.counts.get("cli_runs", 0),
+        "cli_history_runs": tally.counts.get("cli_history_runs", 0),
         "cli_output_files_compared": tally.counts.get("cli_output_files", 0),
         "replay_of_seed_0_identical": again[2] == first0[2],
         "aslr_disabled_for_children": vc.can_disable_aslr(),
